@@ -170,118 +170,99 @@ pub fn __as_f64<T: ToF64>(x: T) -> (r: f64) ensures r == x.to_f64_spec() { x.__t
 // R13: identity on f64 (see rule R13 of the extractor)
 pub fn __idf(x: f64) -> (r: f64) ensures r == x { x }
 
-// ---- prelude fragment: ideal.rs ----
-// Floating point, layer 2 ("idealised real" mode of DESIGN.md 3.2): machine arithmetic treated as
-// mathematical.  rv maps a float to the real it denotes; rounding, overflow, NaN and signed zero are
-// ignored.  Used only where the property is a statement of real arithmetic.
-pub uninterp spec fn rv(x: f64) -> real;
-pub broadcast axiom fn ax_rv_add(a: f64, b: f64) ensures rv(#[trigger] fadd(a, b)) == rv(a) + rv(b);
-pub broadcast axiom fn ax_rv_sub(a: f64, b: f64) ensures rv(#[trigger] fsub(a, b)) == rv(a) - rv(b);
-pub broadcast axiom fn ax_rv_mul(a: f64, b: f64) ensures rv(#[trigger] fmul(a, b)) == rv(a) * rv(b);
-pub broadcast axiom fn ax_rv_div(a: f64, b: f64) ensures rv(b) != 0real ==> rv(#[trigger] fdiv(a, b)) == rv(a) / rv(b);
-pub broadcast axiom fn ax_rv_neg(a: f64) ensures rv(#[trigger] fneg(a)) == 0real - rv(a);
-pub broadcast axiom fn ax_rv_cmp(a: f64, b: f64)
-    ensures #[trigger] fcmp(a, b) == (if rv(a) < rv(b) { Some(core::cmp::Ordering::Less) }
-        else if rv(a) == rv(b) { Some(core::cmp::Ordering::Equal) } else { Some(core::cmp::Ordering::Greater) });
-pub broadcast axiom fn ax_rv_eq(a: f64, b: f64) ensures #[trigger] feq(a, b) == (rv(a) == rv(b));
-pub broadcast axiom fn ax_rv_max(a: f64, b: f64) ensures rv(#[trigger] fmaxf(a, b)) == (if rv(a) >= rv(b) { rv(a) } else { rv(b) });
-pub broadcast axiom fn ax_rv_min(a: f64, b: f64) ensures rv(#[trigger] fminf(a, b)) == (if rv(a) <= rv(b) { rv(a) } else { rv(b) });
-// (idealised) powf denotes a function of the real values of its arguments
-pub uninterp spec fn rpow(x: real, y: real) -> real;
-pub broadcast axiom fn ax_rv_powf(a: f64, b: f64) ensures rv(#[trigger] fpowf(a, b)) == rpow(rv(a), rv(b));
-pub axiom fn ax_rv_lits()
-    ensures rv(0.0f64) == 0real, rv(1.0f64) == 1real, rv(2.0f64) == 2real, rv(0.5f64) * 2real == 1real;
-pub broadcast group ideal {
-    ax_rv_add, ax_rv_sub, ax_rv_mul, ax_rv_div, ax_rv_neg, ax_rv_cmp, ax_rv_eq, ax_rv_max, ax_rv_min, ax_rv_powf
+// ---- prelude fragment: slice_state_ext.rs ----
+// R6 state abstraction for the external-sampling loops: one iteration = pass for player one, then
+// pass for player two; each pass is an uninterpreted, deterministic transformer of the opaque state
+// and reports that player's bound.
+pub struct St { pub g: Ghost<int> }
+pub uninterp spec fn pass_one(s: int, it: u64) -> int;
+pub uninterp spec fn pass_two(s: int, it: u64) -> int;
+pub uninterp spec fn reg_one_of(s: int) -> f64;
+pub uninterp spec fn reg_two_of(s: int) -> f64;
+pub open spec fn step_state(s: int, it: u64) -> int { pass_two(pass_one(s, it), it) }
+pub open spec fn state_after(s0: int, k: nat) -> int decreases k {
+    if k == 0 { s0 } else { step_state(state_after(s0, (k - 1) as nat), k as u64) }
 }
-// (idealised) integer-to-float casts are exact
-pub broadcast axiom fn ax_rv_u64(n: u64) ensures rv(#[trigger] u64_to_f64(n)) == n as real;
-pub broadcast axiom fn ax_rv_usize(n: usize) ensures rv(#[trigger] usize_to_f64(n)) == n as real;
-pub broadcast group ideal_casts { ax_rv_u64, ax_rv_usize }
-
-// ---- extracted from src/lib.rs: enum PlayerNum ----
-#[derive(Copy, Clone)]
-pub enum PlayerNum {
-    /// The first player
-    One,
-    /// The second player
-    Two,
+// bounds reported by iteration k (k >= 1)
+pub open spec fn regs_at(s0: int, k: nat) -> (f64, f64) {
+    (reg_one_of(pass_one(state_after(s0, (k - 1) as nat), k as u64)), reg_two_of(state_after(s0, k)))
 }
+pub open spec fn below_at(s0: int, k: nat, r: f64) -> bool { flt(fmaxf(regs_at(s0, k).0, regs_at(s0, k).1), r) }
+pub uninterp spec fn __s0() -> int;
+#[verifier::external_body]
+pub fn __init_state() -> (st: St) { unimplemented!() }
+#[verifier::external_body]
+pub fn __abs_pass_one(st: &mut St, it: u64) -> (r: f64)
+    ensures final(st).g@ == pass_one(old(st).g@, it), r == reg_one_of(final(st).g@),
+{ unimplemented!() }
+#[verifier::external_body]
+pub fn __abs_pass_two(st: &mut St, it: u64) -> (r: f64)
+    ensures final(st).g@ == pass_two(old(st).g@, it), r == reg_two_of(final(st).g@),
+{ unimplemented!() }
+pub uninterp spec fn strats_of(s: int) -> [Box<[f64]>; 2];
+#[verifier::external_body]
+pub fn __abs_final_strats(st: &St) -> (r: [Box<[f64]>; 2])
+    ensures r == strats_of(st.g@),
+{ unimplemented!() }
 
-// PlayerNum::ind / ind_mut use slice patterns in a `match` (rejected by this Verus); they are kept
-// external with the two-case spec, and that spec is discharged against the real bodies by the
-// loop-free Kani harness `playernum_ind` (so it is cited, not assumed).
-impl PlayerNum {
-    #[verifier::external_body]
-    pub fn ind<'a, T>(&self, arr: &'a [T; 2]) -> (r: &'a T)
-        ensures *r == (match *self { PlayerNum::One => arr[0], PlayerNum::Two => arr[1] })
-    { unimplemented!() }
+#[verifier::external_body] pub struct RegretParams { }
 
-    #[verifier::external_body]
-    pub fn ind_mut<'a, T>(&self, arr: &'a mut [T; 2]) -> (r: &'a mut T)
-        ensures
-            *r == (match *self { PlayerNum::One => old(arr)[0], PlayerNum::Two => old(arr)[1] }),
-            match *self {
-                PlayerNum::One => final(arr)[0] == *final(r) && final(arr)[1] == old(arr)[1],
-                PlayerNum::Two => final(arr)[1] == *final(r) && final(arr)[0] == old(arr)[0],
-            },
-    { unimplemented!() }
-}
-
-// ---- extracted from src/lib.rs: enum Node ----
-pub enum Node {
-    /// A terminal node, the game is over the payoff to player one
-    Terminal(f64),
-    /// A chance node, the game advances independent of player action
-    Chance(Chance),
-    /// a node in the tree where the player can choose between different actions
-    Player(Player),
-}
-
-// ---- extracted from src/lib.rs: struct Chance ----
-pub struct Chance {
-    pub outcomes: Box<[Node]>,
-    pub infoset: usize,
-}
-
-// ---- extracted from src/lib.rs: struct Player ----
-pub struct Player {
-    pub num: PlayerNum,
-    pub infoset: usize,
-    pub actions: Box<[Node]>,
-}
-
-pub open spec fn pnext_ok(num: PlayerNum, p_player: [f64; 2], prob: f64, p_next: [f64; 2]) -> bool {
-    match num {
-        PlayerNum::One => rv(p_next[0]) == rv(p_player[0]) * rv(prob) && p_next[1] == p_player[1],
-        PlayerNum::Two => p_next[0] == p_player[0] && rv(p_next[1]) == rv(p_player[1]) * rv(prob),
-    }
-}
-
-// ---- extracted from src/solve/vanilla.rs: fn thread_threshold ----
-pub fn thread_threshold__player_action<'a>(player: &Player, prob: &f64, next: &'a Node, p_chance: f64, p_player: [f64; 2], work: &mut Vec<(&'a Node, f64, [f64; 2])>, mut next_probs: [f64; 2])
+// ---- extracted from src/solve/external.rs: fn solve_external_multi ----
+pub fn solve_external_multi__scope_body(max_iter: u64, max_reg: f64, __reg_one: &mut f64, __reg_two: &mut f64, params: &RegretParams)
+    requires
+        *old(__reg_one) == finf() && *old(__reg_two) == finf(),
     ensures
-        // exactly one frontier entry per action: the child, the unchanged chance reach, and the reach
-        // vector of ITS path -- only the acting player's entry multiplied by this action's probability
-        final(work)@.len() == old(work)@.len() + 1,
-        final(work)@.take(old(work)@.len() as int) == old(work)@,
-        final(work)@.last().0 == next && final(work)@.last().1 == p_chance, // @ob C06.V.thread_threshold.frontier_reach
-        pnext_ok(player.num, p_player, *prob, final(work)@.last().2), // @ob C06.V.thread_threshold.frontier_reach
+        exists|k: nat| #![trigger state_after(__s0(), k)] k <= max_iter
+            && (forall|j: nat| 1 <= j < k ==> !below_at(__s0(), j, max_reg))
+            && (k < max_iter ==> k >= 1 && below_at(__s0(), k, max_reg))
+            && (k == 0 ==> *final(__reg_one) == finf() && *final(__reg_two) == finf())
+            && (k > 0 ==> (*final(__reg_one), *final(__reg_two)) == regs_at(__s0(), k)), // @ob C09.V.first_below.returns_state_k
 {
-broadcast use fl; broadcast use ideal;
-proof { ax_obeys(); ax_rv_lits(); }
+broadcast use fl;
+proof { ax_obeys(); }
+let mut __st = __init_state();
+proof { assume(__st.g@ == __s0()); }
+let ghost s0 = __st.g@;
+let ghost mut k: nat = 0;
 
-                    let mut next_probs = p_player;
-                    *player.num.ind_mut(&mut next_probs) = *player.num.ind_mut(&mut next_probs) * ( prob);
-                    work.push((next, p_chance, next_probs));
-                }
+        // initialize workspace
+        let mut reg_one = *__reg_one; let mut reg_two = *__reg_two;
+
+        // loop through iters, these will send data to to the threads
+        for it in r: 1..=max_iter 
+invariant_except_break
+    k == r.index@,
+    forall|j: nat| 1 <= j <= k ==> !below_at(s0, j, max_reg),
+invariant
+    __st.g@ == state_after(s0, k),
+    k <= max_iter,
+    k == 0 ==> reg_one == finf() && reg_two == finf(),
+    k > 0 ==> (reg_one, reg_two) == regs_at(s0, k),
+ensures
+    forall|j: nat| 1 <= j < k ==> !below_at(s0, j, max_reg), // @ob C09.V.first_below.no_earlier_stop
+    k < max_iter ==> k >= 1 && below_at(s0, k, max_reg), // @ob C09.V.first_below.stops_only_below
+{
+broadcast use fl;
+proof { ax_obeys(); k = k + 1; }
+
+            reg_one = __abs_pass_one(&mut __st, it);
+            reg_two = __abs_pass_two(&mut __st, it);
+            // check to terminate
+            if f64::max(reg_one, reg_two) < max_reg {
+                break;
+            }
+        }
+    
+*__reg_one = reg_one; *__reg_two = reg_two;
+proof { assert(__st.g@ == state_after(__s0(), k)); }
+}
 
 
 // vacuity canary: must be REJECTED by the verifier (an inconsistent axiom set would accept it)
 pub proof fn __canary_must_fail()
     ensures false, // @ob __canary
 {
-    broadcast use fl; broadcast use ideal; ax_obeys(); ax_rv_lits();
+    broadcast use fl; ax_obeys();
 }
 
 } // verus!
